@@ -254,7 +254,8 @@ class Conn:
                 towers = [epm.tcpip_tower(rpc.ISD_KEY, rpc.NDR, self.dc.isd_port, 0xC0A83865)]
             stub = epm.ept_map_response(towers, self.dc.epm_status)
         self.log(dir="s2c", what="ept_map_reply", stub=stub)
-        return rpc.enc_response(d["call_id"], d["ctx_id"], stub)
+        hint = {"padded": len(stub), "unpadded": len(stub), "zero": 0, "16": len(stub), "max": len(stub) + 100}[self.dc.reply_alloc_hint]
+        return rpc.enc_response(d["call_id"], d["ctx_id"], stub, alloc_hint=hint)
 
     def unseal(self, d: dict, raw: bytes, ev: dict) -> t.Optional[bytes]:
         """independent receiver arithmetic: everything between the 24-byte request header and the security trailer"""
